@@ -140,6 +140,18 @@ func jsonQuote(s string) string {
 	return strings.TrimSuffix(w.String(), "\n")
 }
 
+// jsonKeyName gives the member name of a hash key: a string key "k" and a
+// symbol key k: both appear as the member "k".
+func jsonKeyName(key Sexp) string {
+	switch k := key.(type) {
+	case *SexpStr:
+		return k.S
+	case *SexpSymbol:
+		return k.name
+	}
+	return key.SexpString(nil)
+}
+
 func (hash *SexpHash) jsonHashHelper() string {
 	str := fmt.Sprintf(`{"Atype":"%s", `, hash.TypeName)
 
@@ -150,11 +162,11 @@ func (hash *SexpHash) jsonHashHelper() string {
 	}
 
 	for _, key := range hash.KeyOrder {
-		keyst := key.SexpString(nil)
+		keyst := jsonQuote(jsonKeyName(key))
 		ko = append(ko, keyst)
 		val, err := hash.HashGet(nil, key)
 		if err == nil {
-			str += `"` + keyst + `":`
+			str += keyst + `:`
 			str += string(SexpToJson(val)) + `, `
 		} else {
 			panic(err)
@@ -163,7 +175,7 @@ func (hash *SexpHash) jsonHashHelper() string {
 
 	str += `"zKeyOrder":[`
 	for _, key := range ko {
-		str += `"` + key + `", `
+		str += key + `, `
 	}
 	if n > 0 {
 		str = str[:len(str)-2]
